@@ -137,7 +137,9 @@ const CONTAINERS: [(&str, &str); 9] = [
 ];
 
 /// a document whose deepest element sits at nesting depth `depth` (the root <svg> is depth 1)
-fn nested_doc(depth: usize, kinds: &[u8], leaf_text: bool) -> String {
+/// `leaf`: 0 an empty-element tag, 1 a text element with content, 2 the same shape as a start/end tag pair, 3 that pair with
+/// white space between (each is one element at one level of nesting)
+fn nested_doc(depth: usize, kinds: &[u8], leaf: u8) -> String {
     // depth = 1 (svg) + number of containers + 1 (leaf)
     let n = depth.saturating_sub(2);
     let mut open = String::new();
@@ -149,10 +151,13 @@ fn nested_doc(depth: usize, kinds: &[u8], leaf_text: bool) -> String {
     }
     let leaf = if depth < 2 {
         String::new()
-    } else if leaf_text {
-        "<text class=\"body\" xy=\"0 0\">leaf</text>".to_string()
     } else {
-        BODY.to_string()
+        match leaf {
+            1 => "<text class=\"body\" xy=\"0 0\">leaf</text>".to_string(),
+            2 => "<rect class=\"body\" wh=\"1\"></rect>".to_string(),
+            3 => "<rect class=\"body\" wh=\"1\">\n </rect>".to_string(),
+            _ => BODY.to_string(),
+        }
     };
     format!("<svg>{open}{leaf}{close}</svg>")
 }
@@ -174,14 +179,14 @@ fn depth_cases(tier: Tier) -> Vec<Case> {
                 continue;
             }
             for k in 0..CONTAINERS.len() as u8 {
-                for via in [false, true] {
+                for (via, leaf) in [(false, 0u8), (true, 1), (false, 2), (true, 3), (false, 1), (true, 0)] {
                     let kinds = [k];
-                    let body = nested_doc(depth, &kinds, k % 2 == 0);
+                    let body = nested_doc(depth, &kinds, leaf);
                     let inner = body.strip_prefix("<svg>").unwrap().strip_suffix("</svg>").unwrap().to_string();
                     let (doc, cfg_d) = with_limit("depth-limit", d, via, &inner);
                     let ok = depth <= d as usize;
                     let _ = rendered_leaf(&kinds, depth);
-                    v.push(mk(doc, 1000, 1024, if via { 100 } else { cfg_d }, if ok { Some(1) } else { None }, format!("depth:{}:D={d}:nesting={depth}:{}", CONTAINERS[k as usize].0, if via { "config-element" } else { "config" })));
+                    v.push(mk(doc, 1000, 1024, if via { 100 } else { cfg_d }, if ok { Some(1) } else { None }, format!("depth:{}:D={d}:nesting={depth}:{}:leaf{leaf}", CONTAINERS[k as usize].0, if via { "config-element" } else { "config" })));
                 }
             }
         }
@@ -261,7 +266,7 @@ fn flat_cases(tier: Tier) -> Vec<Case> {
 
 fn fam_mixed(_t: Tier) -> BoxedStrategy<Case> {
     // random mixtures of container kinds at the depth boundary
-    (2u32..30, -1i64..=1, vec(0u8..9, 1..8), any::<bool>())
+    (2u32..30, -1i64..=1, vec(0u8..9, 1..8), 0u8..4)
         .prop_map(|(d, delta, kinds, text)| {
             let depth = ((d as i64 + delta).max(2)) as usize;
             let doc = nested_doc(depth, &kinds, text);
